@@ -33,7 +33,7 @@ const THOROUGH: u32 = 100000;
 fn sub(name: &'static str, dom: Dom, check: fn(&Case, &mut Obs)) -> Box<dyn SubCheck> {
     prop_sub(name, QUICK, THOROUGH, move |t: Tier| case_strategy(t, dom), check)
         .chunks(4)
-        .require(&["batch_multi_row", "batch_single_row", "batch_empty", "perm_nontrivial", "layout_owned_strided"])
+        .require(&["batch_multi_row", "batch_single_row", "batch_empty", "perm_nontrivial", "layout_owned_strided", "poisoned_neighbour", "poison_nan"])
 }
 
 pub fn property() -> Property {
@@ -57,6 +57,7 @@ pub fn property() -> Property {
             "independent references use naive f64 code with tolerance 1e-10*(1+|a|+|b|+scale); FTRL/Platt probabilities (f32) are compared with absolute 1e-6 / 3e-6".into(),
             "Platt A and B are recovered by calling the public platt_newton_method on the same inputs fit_with uses; monotonicity allows 4 f32 ulps because e/(1+e) evaluated in f32 is not exactly monotone".into(),
             "every calling-form comparison includes predict_inplace into a buffer of default_target's shape pre-filled with a generated junk value, predict_inplace twice into one buffer, and predict_inplace of a second batch of equal length into the buffer holding the first result; all bit-identical to the clean result".into(),
+            "poisoned neighbour: in every batch of m >= 2 rows one generated non-last row is replaced by a row holding NaN / +inf / -inf / +1e300 / -1e300 in one or all features; every OTHER row must keep the prediction it has alone (same exactness / tolerance as batch-vs-single); the poisoned row itself is not judged; if predicting the poisoned row alone panics, a panic of the poisoned batch is accepted (class poisoned_row_panics_alone), otherwise the batch must not panic".into(),
             "strata platt_extreme / svm_pr_extreme: A*f+B is driven onto ±{0,1e-3,1,10,50,88,89,100,700,1e4,1e30} (platt_predict directly with generated A of both signs and B; a fitted Platt around a mock inner model; Svm<Pr> with a linear kernel and queries scaled by ±1e3..1e6, 1e30): finite, in [0,1], within 3e-6 of the f64 sigmoid, monotone, no panic".into(),
             "outside those two strata queries stay finite and within a few standard deviations of the training data; NaN/inf inputs and feature-count mismatches (documented assertion panics) are not generated".into(),
             "FastICA (owned Array2 only, not in the statement's list) is not covered; sparse-kernel SVMs are not covered".into(),
